@@ -333,3 +333,265 @@ Section Sim.
     msim (fold_left (m_step ap1) ops s1) (fold_left (m_step ap2) ops s2).
   Proof. induction ops as [|op ops IH]; intros s1 s2 H; cbn [fold_left]; [exact H|]. apply IH, step_sim, H. Qed.
 End Sim.
+
+(* ---------------------------------------------------------------------------------------------- *)
+(* refinement: the sorted list represents the function map of the committed write log *)
+Lemma amap_of_snoc l w : forall x, amap_of (l ++ [w]) x = a_apply (amap_of l) w x.
+Proof. intros x. unfold amap_of. rewrite fold_left_app. reflexivity. Qed.
+
+Definition repr (s : store) (l : list wop) : Prop :=
+  sorted s /\ forall k, s_get s k = amap_of l k.
+
+Lemma repr_apply s l w : repr s l -> repr (s_apply s w) (log_apply l w).
+Proof.
+  intros [Hs Hg]. split; [apply s_apply_sorted; exact Hs|].
+  intros x. unfold log_apply. rewrite amap_of_snoc. destruct w as [k v|k]; cbn [s_apply a_apply].
+  - rewrite s_get_put, Hg. reflexivity.
+  - rewrite s_get_del by exact Hs. rewrite Hg. reflexivity.
+Qed.
+
+Lemma repr_run ops : msim store (list wop) repr (kv_state ops) (m_run log_apply [] ops).
+Proof.
+  unfold kv_state, m_run. apply run_sim; [exact repr_apply|].
+  unfold msim, m_init; cbn [st_store st_bat st_nb]. repeat split; auto using sorted_nil.
+Qed.
+
+Lemma amap_of_last_write ws k : amap_of ws k = last_write k ws.
+Proof.
+  induction ws as [|w ws IH] using rev_ind; [reflexivity|].
+  rewrite amap_of_snoc. unfold last_write. rewrite rev_unit. cbn [find].
+  destruct w as [k' v|k']; cbn [a_apply wkey wval]; destruct (bytes_eqb k k'); try reflexivity;
+    rewrite IH; reflexivity.
+Qed.
+
+Lemma kv_refines_map ops k :
+  s_get (store_of ops) k = amap_of (committed ops) k /\ amap_of (committed ops) k = last_write k (committed ops).
+Proof.
+  split; [|apply amap_of_last_write].
+  destruct (repr_run ops) as ([_ Hg] & _ & _). apply Hg.
+Qed.
+
+Lemma store_sorted ops : sorted (store_of ops).
+Proof. destruct (repr_run ops) as ([Hs _] & _ & _). exact Hs. Qed.
+
+Lemma store_inv ops :
+  StronglySorted bytes_lt (map fst (store_of ops)) /\ NoDup (map fst (store_of ops)).
+Proof. split; [apply sorted_keys|apply sorted_nodup]; apply store_sorted. Qed.
+
+Lemma step_sorted (s : kstate) op : sorted (st_store s) -> sorted (st_store (kv_step_state s op)).
+Proof.
+  intros Hs. unfold kv_step_state.
+  destruct op as [k v|k|k|k| |b0 k v|b0 k|b0|b0|p q]; cbn [m_step st_store];
+    try exact Hs; try (apply (s_apply_sorted _ (WPut k v)); exact Hs); try (apply (s_apply_sorted _ (WDel k)); exact Hs);
+    destruct (st_bat s b0); cbn [st_store]; try exact Hs.
+  apply s_apply_all_sorted; exact Hs.
+Qed.
+
+(* ---------------------------------------------------------------------------------------------- *)
+(* outputs of a history: results of earlier operations do not depend on later ones *)
+Lemma kv_run_from_app s a b :
+  kv_run_from s (a ++ b) = kv_run_from s a ++ kv_run_from (fold_left kv_step_state a s) b.
+Proof.
+  revert s; induction a as [|op a IH]; intros s; cbn [app kv_run_from fold_left]; [reflexivity|].
+  rewrite IH. reflexivity.
+Qed.
+
+Lemma kv_run_from_length s ops : length (kv_run_from s ops) = length ops.
+Proof. revert s; induction ops as [|op ops IH]; intros s; cbn [kv_run_from length]; [reflexivity|]. rewrite IH; reflexivity. Qed.
+
+Lemma kv_run_app a b : kv_run (a ++ b) = kv_run a ++ kv_run_from (kv_state a) b.
+Proof. unfold kv_run. rewrite kv_run_from_app. reflexivity. Qed.
+
+Lemma kv_run_nth pre op post :
+  nth (length pre) (kv_run (pre ++ op :: post)) OBad = kv_out (kv_state pre) op.
+Proof.
+  rewrite kv_run_app. rewrite app_nth2; unfold kv_run; rewrite kv_run_from_length; [|lia].
+  rewrite Nat.sub_diag. reflexivity.
+Qed.
+
+Lemma get_latest pre post k :
+  nth (length pre) (kv_run (pre ++ Get k :: post)) OBad = OVal (last_write k (committed pre)).
+Proof.
+  rewrite kv_run_nth. cbn [kv_out]. f_equal.
+  destruct (kv_refines_map pre k) as [E1 E2]. unfold store_of in E1. rewrite E1, E2. reflexivity.
+Qed.
+
+Lemma has_latest pre post k :
+  nth (length pre) (kv_run (pre ++ Has k :: post)) OBad =
+  OBool (match last_write k (committed pre) with Some _ => true | None => false end).
+Proof.
+  rewrite kv_run_nth. cbn [kv_out]. f_equal. unfold s_has.
+  destruct (kv_refines_map pre k) as [E1 E2]. unfold store_of in E1. rewrite E1, E2. reflexivity.
+Qed.
+
+Lemma iter_spec pre post p st :
+  exists l, nth (length pre) (kv_run (pre ++ Iter p st :: post)) OBad = OList l
+    /\ (forall k v, In (k, v) l <->
+          (last_write k (committed pre) = Some v /\ is_prefix p k = true /\ bytes_leb (p ++ st) k = true))
+    /\ StronglySorted bytes_lt (map fst l)
+    /\ NoDup (map fst l).
+Proof.
+  exists (s_iter (store_of pre) p st). split; [rewrite kv_run_nth; reflexivity|].
+  destruct (s_iter_spec (store_of pre) p st (store_sorted pre)) as [Hin Hso].
+  split; [|split; [apply sorted_keys|apply sorted_nodup]; exact Hso].
+  intros k v. rewrite Hin. destruct (kv_refines_map pre k) as [E1 E2]. rewrite E1, E2. tauto.
+Qed.
+
+(* two lists with the same membership, both strictly ascending, are equal: the iterator result is unique *)
+Lemma lt_sorted_unique (l1 l2 : list bytes) :
+  StronglySorted bytes_lt l1 -> StronglySorted bytes_lt l2 -> (forall x, In x l1 <-> In x l2) -> l1 = l2.
+Proof.
+  revert l2; induction l1 as [|a l1 IH]; intros l2 H1 H2 Hiff.
+  - destruct l2 as [|b l2]; [reflexivity|]. exfalso. apply (Hiff b). left; reflexivity.
+  - destruct l2 as [|b l2]; [exfalso; apply (Hiff a); left; reflexivity|].
+    inversion H1 as [|? ? S1 F1]; inversion H2 as [|? ? S2 F2]; subst.
+    rewrite Forall_forall in F1, F2.
+    assert (a = b).
+    { destruct (proj1 (Hiff a) (or_introl eq_refl)) as [E|Hin]; [symmetry; exact E|].
+      destruct (proj2 (Hiff b) (or_introl eq_refl)) as [E|Hin']; [exact E|].
+      specialize (F2 _ Hin). specialize (F1 _ Hin'). unfold bytes_lt in *.
+      rewrite (kv_ltb_asym _ _ F1) in F2. discriminate. }
+    subst b. f_equal. apply IH; [exact S1|exact S2|].
+    intros x. split; intros Hx.
+    + destruct (proj1 (Hiff x) (or_intror Hx)) as [E|Hin]; [|exact Hin].
+      subst x. specialize (F1 _ Hx). unfold bytes_lt in F1. rewrite kv_ltb_irrefl in F1. discriminate.
+    + destruct (proj2 (Hiff x) (or_intror Hx)) as [E|Hin]; [|exact Hin].
+      subst x. specialize (F2 _ Hx). unfold bytes_lt in F2. rewrite kv_ltb_irrefl in F2. discriminate.
+Qed.
+
+(* ---------------------------------------------------------------------------------------------- *)
+(* what [committed] is: direct writes append themselves, reads and buffering append nothing, a commit
+   appends the buffered writes of the batch in order *)
+Lemma committed_snoc ops op :
+  committed (ops ++ [op]) = st_store (m_step log_apply (m_run log_apply [] ops) op).
+Proof. unfold committed, m_run. rewrite fold_left_app. reflexivity. Qed.
+
+Lemma committed_put ops k v : committed (ops ++ [Put k v]) = committed ops ++ [WPut k v].
+Proof. rewrite committed_snoc. reflexivity. Qed.
+
+Lemma committed_del ops k : committed (ops ++ [Del k]) = committed ops ++ [WDel k].
+Proof. rewrite committed_snoc. reflexivity. Qed.
+
+Lemma committed_other ops op :
+  match op with Put _ _ | Del _ | BCommit _ => False | _ => True end ->
+  committed (ops ++ [op]) = committed ops.
+Proof.
+  intros H. rewrite committed_snoc. unfold committed.
+  destruct op as [k v|k|k|k| |b0 k v|b0 k|b0|b0|p q]; try contradiction; cbn [m_step st_store]; try reflexivity;
+    destruct (st_bat (m_run log_apply [] ops) b0); reflexivity.
+Qed.
+
+Lemma fold_log ws : forall l, fold_left log_apply ws l = l ++ ws.
+Proof.
+  induction ws as [|w ws IH]; intros l; cbn [fold_left]; [rewrite app_nil_r; reflexivity|].
+  rewrite IH. unfold log_apply. rewrite <- app_assoc. reflexivity.
+Qed.
+
+Lemma batch_commit_in_order pre post b :
+  count_new pre = b -> (forall op, In op post -> is_finish b op = false) ->
+  store_of (pre ++ NewBatch :: post ++ [BCommit b]) =
+    fold_left s_apply (bwrites b post) (store_of (pre ++ NewBatch :: post))
+  /\ committed (pre ++ NewBatch :: post ++ [BCommit b]) =
+    committed (pre ++ NewBatch :: post) ++ bwrites b post.
+Proof.
+  intros Hc Hf. split.
+  - unfold store_of, kv_state. apply (commit_generic store s_apply [] pre post b Hc Hf).
+  - unfold committed. rewrite (proj1 (commit_generic (list wop) log_apply [] pre post b Hc Hf)).
+    apply fold_log.
+Qed.
+
+(* ---------------------------------------------------------------------------------------------- *)
+(* a batch that is never committed is invisible: deleting all writes addressed to it from the history
+   changes no result of any other operation and not the final store *)
+Definition blike (x y : bstate) : Prop :=
+  match x, y with
+  | BLive _, BLive _ => True
+  | BNone, BNone => True
+  | BClosed, BClosed => True
+  | _, _ => False
+  end.
+
+Definition brel (b : nat) (s s' : kstate) : Prop :=
+  st_store s = st_store s' /\ st_nb s = st_nb s' /\
+  (forall i, i <> b -> st_bat s i = st_bat s' i) /\ blike (st_bat s b) (st_bat s' b).
+
+Lemma brel_bwrite b s s' op : is_bwrite b op = true -> brel b s s' -> brel b (kv_step_state s op) s'.
+Proof.
+  intros W (HS & HN & HO & HL). unfold kv_step_state.
+  destruct op as [k v|k|k|k| |b0 k v|b0 k|b0|b0|p q]; cbn [is_bwrite] in W; try discriminate;
+    apply Nat.eqb_eq in W; subst b0; cbn [m_step];
+    destruct (st_bat s b) eqn:Eb; unfold brel; cbn [st_store st_bat st_nb]; rewrite ?Eb; repeat split; auto;
+    try (intros i Hi; rewrite upd_other by exact Hi; apply HO; exact Hi);
+    rewrite upd_same; destruct (st_bat s' b); exact HL.
+Qed.
+
+Lemma brel_other b s s' op : is_bwrite b op = false -> is_commit b op = false -> brel b s s' ->
+  kv_out s op = kv_out s' op /\ brel b (kv_step_state s op) (kv_step_state s' op).
+Proof.
+  intros W C (HS & HN & HO & HL). unfold kv_step_state.
+  destruct s as [st bat nb], s' as [st' bat' nb']. cbn [st_store st_bat st_nb] in *. subst st' nb'.
+  assert (Hext : forall b0 x i, i <> b -> upd bat b0 x i = upd bat' b0 x i).
+  { intros b0 x i Hi. unfold upd. destruct (Nat.eqb i b0); [reflexivity|apply HO; exact Hi]. }
+  destruct op as [k v|k|k|k| |b0 k v|b0 k|b0|b0|p q]; cbn [is_bwrite is_commit] in W, C;
+    cbn [kv_out m_step st_store st_bat st_nb].
+  - split; [reflexivity|]. unfold brel; cbn [st_store st_bat st_nb]; repeat split; auto.
+  - split; [reflexivity|]. unfold brel; cbn [st_store st_bat st_nb]; repeat split; auto.
+  - split; [reflexivity|]. unfold brel; cbn [st_store st_bat st_nb]; repeat split; auto.
+  - split; [reflexivity|]. unfold brel; cbn [st_store st_bat st_nb]; repeat split; auto.
+  - split; [reflexivity|]. unfold brel; cbn [st_store st_bat st_nb]; repeat split; auto.
+    unfold upd. destruct (Nat.eqb b nb); [exact I|exact HL].
+  - apply Nat.eqb_neq in W. rewrite <- (HO b0 W). destruct (bat b0) eqn:E0;
+      (split; [reflexivity|]); unfold brel; cbn [st_store st_bat st_nb]; repeat split; auto.
+    rewrite !upd_other by congruence. exact HL.
+  - apply Nat.eqb_neq in W. rewrite <- (HO b0 W). destruct (bat b0) eqn:E0;
+      (split; [reflexivity|]); unfold brel; cbn [st_store st_bat st_nb]; repeat split; auto.
+    rewrite !upd_other by congruence. exact HL.
+  - apply Nat.eqb_neq in C. rewrite <- (HO b0 C). destruct (bat b0) eqn:E0;
+      (split; [reflexivity|]); unfold brel; cbn [st_store st_bat st_nb]; repeat split; auto.
+    rewrite !upd_other by congruence. exact HL.
+  - destruct (Nat.eq_dec b0 b) as [->|NE].
+    + destruct (bat b) eqn:E1, (bat' b) eqn:E2; cbn [blike] in HL; try contradiction;
+        (split; [reflexivity|]); unfold brel; cbn [st_store st_bat st_nb]; repeat split; auto;
+        rewrite ?E1, ?E2, ?upd_same; exact I.
+    + rewrite <- (HO b0 NE). destruct (bat b0) eqn:E0;
+        (split; [reflexivity|]); unfold brel; cbn [st_store st_bat st_nb]; repeat split; auto;
+        rewrite !upd_other by congruence; exact HL.
+  - split; [reflexivity|]. unfold brel; cbn [st_store st_bat st_nb]; repeat split; auto.
+Qed.
+
+Definition obs_from (s : kstate) (ops : list kop) : list (kop * kout) := combine ops (kv_run_from s ops).
+Definition obs (ops : list kop) : list (kop * kout) := combine ops (kv_run ops).
+Definition not_bwrite (b : nat) (op : kop) : bool := negb (is_bwrite b op).
+
+Lemma uncommitted_from b ops : forall s s', brel b s s' ->
+  (forall op, In op ops -> is_commit b op = false) ->
+  filter (fun p => not_bwrite b (fst p)) (obs_from s ops) = obs_from s' (filter (not_bwrite b) ops)
+  /\ brel b (fold_left kv_step_state ops s) (fold_left kv_step_state (filter (not_bwrite b) ops) s').
+Proof.
+  induction ops as [|op ops IH]; intros s s' HR HC.
+  - split; [reflexivity|exact HR].
+  - assert (NB : not_bwrite b op = negb (is_bwrite b op)) by reflexivity.
+    unfold obs_from in *. cbn [kv_run_from combine filter fold_left fst].
+    destruct (is_bwrite b op) eqn:W; cbn [negb] in NB; rewrite NB.
+    + apply IH; [apply brel_bwrite; assumption|]. intros o Ho. apply HC. right; exact Ho.
+    + destruct (brel_other b s s' op W (HC op (or_introl eq_refl)) HR) as [Eo HR'].
+      cbn [kv_run_from combine fold_left]. rewrite Eo.
+      destruct (IH _ _ HR' (fun o Ho => HC o (or_intror Ho))) as [E1 E2].
+      split; [|exact E2]. f_equal. exact E1.
+Qed.
+
+Lemma brel_refl b s : st_bat s b <> BDone -> brel b s s.
+Proof.
+  intros H. unfold brel. repeat split; auto. destruct (st_bat s b); cbn; auto.
+Qed.
+
+Lemma batch_uncommitted_invisible b ops :
+  (forall op, In op ops -> is_commit b op = false) ->
+  filter (fun p => not_bwrite b (fst p)) (obs ops) = obs (filter (not_bwrite b) ops)
+  /\ store_of ops = store_of (filter (not_bwrite b) ops).
+Proof.
+  intros HC.
+  destruct (uncommitted_from b ops kv_init kv_init) as [E (HS & _)]; [|exact HC|].
+  - apply brel_refl. cbn. discriminate.
+  - split; [exact E|exact HS].
+Qed.
